@@ -294,6 +294,7 @@ def control_checks(case, run, tags):
             over = abs(G.tank_volume(case, tk, R.pres[c['node']][k]) - G.tank_volume(case, tk, thr_level))
             area = G.mean_area(case, tk, thr_level, R.pres[c['node']][k])
             tags.append('crossing_checked')
+            tags.append('crossing_checked:%s' % what)
             if k == 1:
                 tags.append('crossing_in_first_step')
             if int(R.times[k]) % hyd:
